@@ -40,6 +40,21 @@ Theorem must_accept_san_ip : forall ip_parse pre v post cns host cn p,
 Proof. exact match_accept_complete_ip. Qed.
 Print Assumptions must_accept_san_ip.
 
+(* without the hypothesis on the earlier entries the statement is false of the code that exists: an entry whose left-most label
+   has several wildcards makes _dnsname_match raise, and the exact entry after it is never looked at (C08-F1) *)
+Theorem must_accept_san_dns_unconditional_refuted : exists pre v post host,
+  host_ip_of (fun _ => None) host = None /\ dnsname_match v host = DMatch true /\
+  match_hostname (fun _ => None) (pre ++ SDns v :: post) [] host false = RejectCert.
+Proof. exists [SDns (S!"**.a")], (S!"a.a"), [], (S!"a.a"). vm_compute. repeat split. Qed.
+Print Assumptions must_accept_san_dns_unconditional_refuted.
+
+(* "commonName when SANs exist" is rejected only for DNS and IP entries: a certificate whose subjectAltName holds only other
+   entry types (URI, ...) is matched by its commonName when that is enabled (C08-F2) *)
+Theorem common_name_beside_other_san_refuted : exists san cns host,
+  san <> [] /\ match_hostname (fun _ => None) san cns host true = Accept.
+Proof. exists [SOther], [S!"a.b"], (S!"a.b"). split; [discriminate|vm_compute; reflexivity]. Qed.
+Print Assumptions common_name_beside_other_san_refuted.
+
 (* ---- must reject ---- *)
 (* every acceptance is justified: DNS entry vs non-IP host, IP entry by address value
    vs IP host, commonName only when enabled and no DNS/IP SAN exists *)
@@ -75,6 +90,11 @@ Print Assumptions wildcard_covers_one_label.
 Theorem alabel_source_fact : Gen_Tls.alabel_test_ignores_case = Some true.
 Proof. reflexivity. Qed.
 Print Assumptions alabel_source_fact.
+
+(* _ipaddress_match still compares an IP entry with the host by packed octets - address family and value - as the model's packed_eqb does *)
+Theorem ip_compare_source_fact : Gen_Tls.ip_entries_compared_by_packed_octets = Some true.
+Proof. reflexivity. Qed.
+Print Assumptions ip_compare_source_fact.
 
 (* (the A-label prefix in any letter case: `XN--*` is as much an A-label as `xn--*`) *)
 Theorem must_reject_wildcard_in_alabel : forall dn host lm rem,
